@@ -83,7 +83,7 @@ def uniform_le(ctx, bs, le, what, data):
 
 
 def h_mixed(m, ctx, nlines, menu_name, fixed=None, inc_len=4, out_len=3, first_le=None, mode='Build', pre_temp_len=None,
-            pre_out_len=None):
+            pre_out_len=None, faults=0):
     it = Interp(m, ctx)
     source, desc = build_source(ctx, nlines, menu_name, mix_le=(first_le is None), fixed=fixed,
                                 le_choices=(first_le,) if first_le else (b'\n', b'\r\n'))
@@ -92,11 +92,17 @@ def h_mixed(m, ctx, nlines, menu_name, fixed=None, inc_len=4, out_len=3, first_l
     pre_temp = ctx.fresh_bytes('pt', pre_temp_len, ASCII_ALL) if pre_temp_len is not None else None
     pre_out = ctx.fresh_bytes('po', pre_out_len, ASCII_ALL) if pre_out_len is not None else None
     env = se.install(it, source, pre_out=pre_out, pre_temp=pre_temp)
+    if faults:
+        # one transient I/O failure while the source is opened / read (the call fails once, later calls succeed)
+        env.fault_budget = faults
+        env.fault_filter = lambda op, path: op in ('open', 'read') and bytes(path) == SRC
     r = run_preprocess(m, it, mode, False, True)
-    data = {'op': 'pp', 'mode': mode, 'pre_temp': syms_of(pre_temp) if pre_temp is not None else None,
+    data = {'op': 'pp', 'mode': mode, 'faults': list(env.faults), 'pre_temp': syms_of(pre_temp) if pre_temp is not None else None,
             'pre_out': syms_of(pre_out) if pre_out is not None else None, 'lines': desc, 'source': syms_of(source), 'inc': syms_of(se.inc_content),
             'cmd_results': [(code, syms_of(o)) for _, code, o in se.cmd_results], 'trailing': True, 'source_shown': show_bytes(source)}
     ctx.notes['lines'] = desc
+    if faults and env.faults:
+        ctx.cover('fault_while_reading_source')
     if r.idx != 0:
         return
     le = specpp.first_line_ending(ctx, source)
@@ -134,6 +140,9 @@ def jobs(tier):
             js.append({'name': 'stale output --needed len=%d first_le=%r' % (pol, le), 'harness': (H, 'h_mixed'),
                        'params': {'nlines': 2, 'menu_name': 'small', 'fixed': ['text', 'text'], 'first_le': le, 'mode': 'InMemoryBuild',
                                   'pre_out_len': pol, 'inc_len': 0, 'out_len': 0}})
+    for sc in (['text', 'text'], ['include f', 'text'], ['temp', 'cont prefix']):
+        js.append({'name': 'transient read failure of the source: ' + '/'.join(sc), 'harness': (H, 'h_mixed'),
+                   'params': {'nlines': len(sc), 'menu_name': 'small', 'fixed': sc, 'inc_len': 2, 'out_len': 1, 'faults': 1}})
     for fill in (8189, 8190, 8191, 8192):
         js.append({'name': 'first line of %d+2 bytes' % fill, 'harness': (H, 'h_leaf_long'), 'params': {'fill': fill}})
     if not quick:
@@ -149,7 +158,7 @@ BOUNDS = {'quick': 'first-line detection: every buffer of 0-5 bytes (bytes 0-4: 
           'thorough': 'buffers 0-7 bytes; scenarios + one free line; all 3-line sources over the small menu; included file 4 bytes, output 3 bytes'}
 ASSUMPTIONS = ['D1: CR occurs only immediately before LF in every text input; ordinary source lines and write arguments contain no CR',
                'first lines longer than the std BufReader buffer (8 KiB) are outside the bound']
-COVERS_REQUIRED = ['leaf_crlf', 'leaf_lf', 'mixed_crlf', 'mixed_lf', 'temp', 'leaf_long']
+COVERS_REQUIRED = ['fault_while_reading_source', 'leaf_crlf', 'leaf_lf', 'mixed_crlf', 'mixed_lf', 'temp', 'leaf_long']
 
 
 def replay(native, v):
@@ -175,8 +184,27 @@ def replay(native, v):
         ok_ = out.endswith(b'second' + le)
         return not ok_, {'first_line_bytes': d['fill'] + 2, 'first line ends with': repr(buf[d['fill']:d['fill'] + 3]), 'native_output_tail': repr(out[-12:])}
     margs = ('-N',) if d.get('mode') == 'InMemoryBuild' else ()
-    nat = ppreplay.run_native(d, model, mode_args=margs)
     src = ppreplay.conc(d['source'], model)
+    nat = None
+    if d.get('faults'):
+        # the failure is injected with the LD_PRELOAD shim; the model does not say which matching call failed: try each ordinal
+        op, path = d['faults'][0]
+        import os
+        for nth in (1, 2, 3, 4):
+            res_ = ppreplay.run_native_fault(d, model, op, os.path.basename(path), nth, mode_args=margs)
+            if res_ is None or not res_['injected']:
+                break
+            if res_['rc'] == 0:
+                nat = res_
+                k = src.find(b'\n')
+                le_ = b'\r\n' if (k >= 1 and src[k - 1] == 13) else b'\n'
+                o = res_['output'] or b''
+                if (le_ == b'\r\n') != (b'\r\n' in o) and b'\n' in o:
+                    break
+        if nat is None:
+            return False, {'note': 'no ordinal of the injected %s lets the run succeed natively' % op}
+    else:
+        nat = ppreplay.run_native(d, model, mode_args=margs)
     k = src.find(b'\n')
     le = b'\r\n' if (k >= 1 and src[k - 1] == 13) else b'\n'
     bad = False
